@@ -26,7 +26,7 @@ def run(res, replay=None):
     res.rule = ('inference stream: tiny identifiable models (one or two size parameters, n in {3,4}, L2 loss on height and '
                 'branch length or Poisson likelihood on the SFS, noise-free data), seeds, 1-3 runs, with/without explicit '
                 'x0: parameters within bounds, reported loss = min over runs = loss at the reported parameters, reported '
-                'distribution built from them, same seed => same result, state-space caching on/off identical, add_run '
+                'distribution built from them, same seed => same result, state-space caching on/off identical, add_run (incl. merging with a perfect fit of loss exactly 0) '
                 'keeps the lower loss and concatenates, add_bootstrap adds one row, create_run starts from x0 and rejects '
                 'out-of-bounds values, create_bootstrap resamples, generating parameters recovered (1e-3); the recorded '
                 'optimiser results and seeded start points are replayed through the Gallina bookkeeping model '
@@ -77,6 +77,13 @@ def run(res, replay=None):
         exp_params = ot['params'] if ot['loss'] < bf['loss'] else bf['params']
         if mg['loss'] != exp_loss or mg['params'] != exp_params or mg['loss_runs'] != bf['loss_runs'] + ot['loss_runs']:
             viol('add_run does not keep the lower loss / concatenate the losses', merged=mg, self=bf, other=ot)
+        pfm = r['perfect']
+        for tag, mgd, a_, b_ in (('perfect fit + worse run', pfm['merged'], pfm['before'], pfm['other']),
+                                 ('worse run + perfect fit', pfm['merged_reverse'], pfm['other'], pfm['before'])):
+            el = min(a_['loss'], b_['loss'])
+            ep = b_['params'] if b_['loss'] < a_['loss'] else a_['params']
+            if mgd['loss'] != el or mgd['params'] != ep or mgd['loss'] != min(mgd['loss_runs']):
+                viol(f'add_run does not keep the lower loss ({tag})', merged=mgd, self=a_, other=b_)
         if r['boot_rows'][1] != r['boot_rows'][0] + 2:
             viol('add_bootstrap does not append exactly one row each', rows=r['boot_rows'])
         if r['add_not_run'] != 'RuntimeError':
